@@ -37,6 +37,8 @@ func draw(t *rapid.T) BoundCase {
 	switch {
 	case rule == "v1-until-require-height" || rule == "v2-from-allow-height":
 		opts = sim.NetOpts{MaxForkHeight: rapid.SampledFrom([]int{6, 10, 16}).Draw(t, "forkSpan")}
+	case rule == "v2-ephemeral-parent-maturity":
+		opts = sim.NetOpts{MaxForkHeight: rapid.SampledFrom([]int{0, 3, 6}).Draw(t, "forkSpan"), EphemeralNear: 5}
 	case strings.HasPrefix(rule, "v1-"):
 		opts = sim.NetOpts{MaxForkHeight: rapid.SampledFrom([]int{4, 10, 20}).Draw(t, "forkSpan"), V1Only: true}
 	default:
@@ -67,6 +69,11 @@ func draw(t *rapid.T) BoundCase {
 		if net.HardforkV2.AllowHeight > 3 {
 			reach(net.HardforkV2.AllowHeight - 3)
 		}
+	case rule == "v2-ephemeral-parent-maturity":
+		reach(net.HardforkV2.AllowHeight + 1)
+		if net.HardforkV2.EphemeralOutputHeight > 3 {
+			reach(net.HardforkV2.EphemeralOutputHeight - 3)
+		}
 	case strings.HasPrefix(rule, "v2-"):
 		reach(net.HardforkV2.AllowHeight + 1)
 	}
@@ -81,6 +88,9 @@ func draw(t *rapid.T) BoundCase {
 						want := "reject"
 						if sc.Want(a) {
 							want = "accept"
+						}
+						if sc.Any != nil && sc.Any(a) {
+							want = "any"
 						}
 						g.Probe(blk, bs, rule, want, map[string]string{"child": fmt.Sprint(child)})
 					}
@@ -105,7 +115,7 @@ func draw(t *rapid.T) BoundCase {
 
 func check(c BoundCase) error {
 	rec := stats.G()
-	rejected, accepted := 0, 0
+	rejected, accepted, legacyAccepted := 0, 0, 0
 	var lastReject, firstAccept uint64
 	hooks := sim.Hooks{
 		Probe: func(ch *sim.Chain, st *sim.Step) error {
@@ -126,6 +136,16 @@ func check(c BoundCase) error {
 				}
 				rejected++
 				lastReject = child
+			case "any":
+				// documented legacy window: the verdict is recorded (an acceptance shows that the construction is valid
+				// but for the rule judged from the bound on), never asserted
+				if err == nil {
+					legacyAccepted++
+					accepted++
+					if firstAccept == 0 {
+						firstAccept = child
+					}
+				}
 			default:
 				return fmt.Errorf("harness: unknown want %q", st.Want)
 			}
@@ -147,6 +167,9 @@ func check(c BoundCase) error {
 		labels = append(labels, "no-probe:"+c.Rule)
 	} else {
 		labels = append(labels, "one-sided:"+c.Rule)
+	}
+	if legacyAccepted > 0 {
+		labels = append(labels, "legacy-window-accepted:"+c.Rule)
 	}
 	n := c.Chain.Network
 	rec.Case(stats.FP(c.Rule, n.MaturityDelay, uint64(n.BlockInterval), n.HardforkV2.AllowHeight, n.HardforkV2.RequireHeight, n.HardforkFoundation.Height, n.HardforkASIC.Height, lastReject, firstAccept), nt, labels...)
